@@ -57,6 +57,10 @@ func leafSorts(T types.Type) []*Sort {
 	var out []*Sort
 	switch u := T.Underlying().(type) {
 	case *types.Basic:
+		if u.Kind() == types.Invalid {
+			out = []*Sort{}
+			break
+		}
 		out = []*Sort{basicSort(u)}
 	case *types.Pointer, *types.Map, *types.Chan, *types.Signature:
 		out = []*Sort{Ref64}
@@ -216,6 +220,10 @@ func leafKinds(T types.Type) []leafKind {
 	var out []leafKind
 	switch u := T.Underlying().(type) {
 	case *types.Basic:
+		if u.Kind() == types.Invalid {
+			out = []leafKind{}
+			break
+		}
 		out = []leafKind{lkScalar}
 	case *types.Pointer, *types.Map, *types.Chan:
 		out = []leafKind{lkRef}
